@@ -223,7 +223,12 @@ func (fc *FuncCtx) AP(v ssa.Value) string {
 }
 
 func (fc *FuncCtx) uniq(kind string, v ssa.Value) string {
-	return fmt.Sprintf("%s#%s%s", kind, fc.prefix, v.Name())
+	pfx := fc.prefix
+	if pfx == "" {
+		// top-level context: SSA value names are only unique within a function
+		pfx = fc.A.P.FnName(fc.Fn) + "/"
+	}
+	return fmt.Sprintf("%s#%s%s", kind, pfx, v.Name())
 }
 
 func (fc *FuncCtx) ap0(v ssa.Value) string {
